@@ -13,8 +13,9 @@ RULE = (
     "Each case: an archive with 1-3 points (with/without error arrays) written through EKO.create, then a session in one of "
     "four modes - opened with EKO.read (read-only); EKO.read then closed; EKO.edit then closed; the freshly built EKO after "
     "its close - and 1-12 steps drawn from: store attempts {set a new point, overwrite a point, eko.xgrid = .., "
-    "eko.update(), load_recipes (evolution / matching), parts[..] = .. (evolution / matching), dump()}, reads {get, in, "
-    "iter, items(), approx, operator() context, cards, metadata}, memory-only {del, unload, operators.sync}, a direct "
+    "eko.update(), load_recipes / recipes[..] = None (evolution / matching; a fresh recipe or one already stored in the archive "
+    "while it was writable, before or after a sync()/read of it), parts[..] = .. (fresh or already stored), dump()}, reads {get, in, "
+    "iter, items(), approx, operator() context, cards, metadata}, memory-only {del, unload, operators.sync, sync of the recipe / part inventories, recipes[stored header]}, a direct "
     "metadata.update() (rewrites only the temporary copy; outcome not judged, the archive is), and "
     "{close(), __exit__(None..), dump(other path), deepcopy(other path)}.  Oracle: every store attempt raises "
     "ReadOnlyOperator (open read-only) or ClosedOperator (closed); on a read-only EKO reads succeed and return the written "
@@ -38,7 +39,8 @@ LEVEL_TEXT = (
 
 KEYS = [[10.0, 4, "fi"], [20.0, 5, "fi"], [30.5, 5, "fi"]]
 SHAPE = [2, 2, 2, 2]
-WRITE_KINDS = ["set_new", "overwrite", "xgrid", "update", "recipes", "part", "dump"]
+WRITE_KINDS = ["set_new", "overwrite", "xgrid", "update", "recipes", "recipe_set", "part", "dump"]
+STORED = 5  # header index of the recipes / parts written into the archive while it was writable
 MODES = ["ro", "ro-closed", "edit-closed", "new-closed"]
 
 
@@ -58,14 +60,16 @@ def strategy(tier):
         st.sampled_from(
             [["iter"], ["items"], ["cards"], ["meta"], ["unload"], ["sync"], ["dump_other"], ["deepcopy"], ["meta_direct"], ["meta_direct"]]
         ),
+        st.sampled_from([["inv_sync"], ["inv_sync"], ["inv_get", "evolution"], ["inv_get", "matching"]]),
     )
     step = st.one_of(
         st.tuples(st.just("set_new"), idx).map(list),
         st.tuples(st.just("overwrite"), idx, st.booleans()).map(list),
         st.just(["xgrid"]),
         st.just(["update"]),
-        st.tuples(st.just("recipes"), hk).map(list),
-        st.tuples(st.just("part"), hk).map(list),
+        st.tuples(st.just("recipes"), hk, st.booleans()).map(list),  # True: a recipe that already exists in the archive
+        st.tuples(st.just("recipe_set"), hk, st.booleans()).map(list),  # eko.recipes[...] = None directly
+        st.tuples(st.just("part"), hk, st.booleans()).map(list),
         st.just(["dump"]),
         st.sampled_from([["close"], ["exit"], ["close"]]),
         read,
@@ -76,6 +80,8 @@ def strategy(tier):
         dict(
             points=st.lists(st.booleans(), min_size=1, max_size=3),
             mode=st.sampled_from(["ro"] + MODES),
+            stored=st.sampled_from([True, True, False]),
+            presync=st.booleans(),
             steps=st.lists(step, min_size=2, max_size=12),
         )
     )
@@ -112,6 +118,7 @@ def _run(case, res, sb):
     path = sb.dir / "a.tar"
     n = len(case["points"])
     mode = case["mode"]
+    stored = bool(case.get("stored", False))
     content = {}
 
     # ---- set-up: legitimate writes only; anything failing here is not this property's business, but is not hidden either
@@ -121,11 +128,21 @@ def _run(case, res, sb):
             op = value(i, err)
             eko[s1.ep_of(KEYS[i])[0]] = op
             content[s1.ep_of(KEYS[i])[1]] = s1.op_frozen(op)
+        if stored:
+            # legitimate writes while the EKO is writable: these headers exist in the archive (and, for the handle that
+            # wrote them, in the inventory caches) when the store attempts on the same headers are made later
+            eko.load_recipes([header("evolution", STORED), header("matching", STORED)])
+            eko.parts[header("evolution", STORED)] = value(80, False)
+            eko.parts_matching[header("matching", STORED)] = value(81, True)
         eko.close()
         if mode in ("ro", "ro-closed"):
             eko = EKO.read(path)
         elif mode == "edit-closed":
             eko = EKO.edit(path)
+        if mode != "new-closed" and case.get("presync", False):
+            # a legitimate read in the session under test: the inventories now know the archived headers
+            for inv in (eko.recipes, eko.recipes_matching, eko.parts, eko.parts_matching):
+                inv.sync()
         if mode in ("ro-closed", "edit-closed"):
             eko.close()
     except Exception as e:  # noqa: BLE001 - repo call
@@ -135,7 +152,9 @@ def _run(case, res, sb):
     ref = s1.sha256(path)
     ref_content = s1.tar_content(path)
     attempted = set()
-    classes = {f"mode={mode}", f"points={n}"}
+    classes = {f"mode={mode}", f"points={n}", f"stored={stored}"}
+    if mode != "new-closed":
+        classes.add(f"presync={bool(case.get('presync', False))}")
     nother = [0]
     readonly = mode in ("ro", "ro-closed")
 
@@ -179,11 +198,20 @@ def _run(case, res, sb):
                     fn = lambda: setattr(eko, "xgrid", XGrid([0.2, 0.6, 1.0]))  # noqa: E731
                 elif kind == "update":
                     fn = lambda: eko.update()  # noqa: E731
-                elif kind == "recipes":
-                    fn = lambda: eko.load_recipes([header(st[1], 0)])  # noqa: E731
+                elif kind in ("recipes", "recipe_set"):
+                    known = len(st) > 2 and bool(st[2])
+                    hdr = header(st[1], STORED if known else 0)
+                    inv = eko.recipes if st[1] == "evolution" else eko.recipes_matching
+                    classes.add(f"{state}:write:{kind}:{'existing' if known and stored else 'fresh'}:cached={hdr in inv.cache}")
+                    if kind == "recipes":
+                        fn = lambda: eko.load_recipes([hdr])  # noqa: E731
+                    else:
+                        fn = lambda: inv.__setitem__(hdr, None)  # noqa: E731
                 elif kind == "part":
-                    hdr = header(st[1], 1)
+                    known = len(st) > 2 and bool(st[2])
+                    hdr = header(st[1], STORED if known else 1)
                     inv = eko.parts if st[1] == "evolution" else eko.parts_matching
+                    classes.add(f"{state}:write:part:{'existing' if known and stored else 'fresh'}:cached={hdr in inv.cache}")
                     fn = lambda: inv.__setitem__(hdr, value(70, True))  # noqa: E731
                 else:
                     fn = lambda: eko.dump()  # noqa: E731
@@ -230,6 +258,15 @@ def _run(case, res, sb):
                     fn = lambda: eko.unload()  # noqa: E731
                 elif kind == "sync":
                     fn = lambda: eko.operators.sync()  # noqa: E731
+                elif kind == "inv_sync":
+
+                    def fn():
+                        for inv in (eko.recipes, eko.recipes_matching, eko.parts, eko.parts_matching):
+                            inv.sync()
+
+                elif kind == "inv_get":
+                    hdr = header(st[1], STORED)
+                    fn = lambda: (eko.recipes if st[1] == "evolution" else eko.recipes_matching)[hdr]  # noqa: E731
                 elif kind == "meta_direct":
 
                     def fn():
@@ -248,8 +285,8 @@ def _run(case, res, sb):
                 else:
                     raise ValueError(f"unknown step {st}")
                 ok, out = attempt(fn)
-                if state == "ro" and kind == "meta_direct":
-                    classes.add("ro:meta_direct:" + ("ok" if ok else f"raised:{type(out).__name__}"))
+                if state == "ro" and kind in ("meta_direct", "inv_get"):  # inv_get of a header that was never stored raises legitimately
+                    classes.add(f"ro:{kind}:" + ("ok" if ok else f"raised:{type(out).__name__}"))
                 elif state == "ro":
                     if not ok:
                         res.fail(exc_bucket(f"{ID}/ro/read-failed/{kind}", out), f"{kind} on a read-only EKO raised {out!r}")
